@@ -7,7 +7,10 @@ selects which harnesses of a file belong to which property."""
 import glob, importlib.util, os
 from bcv.shadow import Sub  # noqa: F401
 
-CAPS = {"quick": 900, "thorough": 7200}      # wall-clock cap per harness (s) unless the harness says cap=
+import os as _os
+# wall-clock cap per harness (s) unless the harness says cap=; VERIF_QUICK_CAP / VERIF_THOROUGH_CAP override (development:
+# measuring passes give up on slow harnesses sooner)
+CAPS = {"quick": int(_os.environ.get("VERIF_QUICK_CAP", "900")), "thorough": int(_os.environ.get("VERIF_THOROUGH_CAP", "7200"))}
 MEM_GB = {"quick": 14, "thorough": 30}       # RLIMIT_AS per process of a harness
 
 VARIANTS, PLAN = {}, {}
